@@ -712,9 +712,82 @@ func checkC05(c *Ctx) {
 	// (d) the exemption for diagnostics in (c) is sound only if diagnostic text cannot come back into a file or a decision
 	checkFileAPIs(c, "C05.d", f)
 	checkDiagnosticSink(c, f)
+	// (f) "the same files": the bytes written depend on a file through its content, not through the spelling of its path
+	r.Rule("C05.f", "the content handed to sys.WriteFile mentions a path parameter only as the argument of sys.ReadFile or filepath.Base (same files under another path spelling or working directory give the same bytes)", 1)
+	checkContentIndependentOfPath(c, f)
 	// the allow-list trusts the standard library and go-cmp as built: no go.mod replaces an external module
 	r.Rule("C05.e", "the allow-listed external modules are the ones actually built: no go.mod replaces an external module; go-cmp at the reviewed version", 12)
 	checkModuleGraph(c, "C05.e")
+}
+
+// checkContentIndependentOfPath (C05.f): in the normal form (helpers inlined) of every function that calls
+// sys.WriteFile, the content argument may mention a parameter that is also used as a file path (argument of
+// sys.ReadFile or path of sys.WriteFile) only inside sys.ReadFile(·) — the content — or filepath.Base(·) — the
+// file's own name, which no spelling of the path changes.
+func checkContentIndependentOfPath(c *Ctx, f *FC) {
+	r := c.R
+	n := 0
+	for _, fn := range f.Prog.Funcs {
+		has := false
+		ir.WalkFunc(fn, func(t ir.Term) bool {
+			if _, ok := isCallTo(t, sysPath+".WriteFile"); ok {
+				has = true
+			}
+			return true
+		})
+		if !has {
+			continue
+		}
+		nf := f.N.Func(fn)
+		pos := c.Pos(f.M.Fset, fn.Decl.Pos())
+		// parameters used as paths
+		pathParams := map[int]bool{}
+		var paramsOf func(t ir.Term, into map[int]bool)
+		paramsOf = func(t ir.Term, into map[int]bool) {
+			ir.Walk(t, func(x ir.Term) bool {
+				if p, ok := x.(*ir.Param); ok {
+					into[p.Idx] = true
+				}
+				return true
+			})
+		}
+		var writes []*ir.App
+		ir.Walk(nf, func(t ir.Term) bool {
+			if app, ok := isCallTo(t, sysPath+".ReadFile"); ok && len(app.Args) == 1 {
+				paramsOf(app.Args[0], pathParams)
+			}
+			if app, ok := isCallTo(t, sysPath+".WriteFile"); ok && len(app.Args) == 2 {
+				paramsOf(app.Args[0], pathParams)
+				writes = append(writes, app)
+			}
+			return true
+		})
+		for _, w := range writes {
+			n++
+			var leaks []string
+			ir.Walk(w.Args[1], func(x ir.Term) bool {
+				if _, ok := isCallTo(x, sysPath+".ReadFile"); ok {
+					return false // the content of the file: what the output is meant to depend on
+				}
+				if _, ok := isCallTo(x, "path/filepath.Base"); ok {
+					return false // the file's own name: the same for every spelling of the path
+				}
+				if p, ok := x.(*ir.Param); ok && pathParams[p.Idx] {
+					leaks = append(leaks, sprintf("p%d", p.Idx))
+				}
+				if g, ok := x.(*ir.Global); ok && g.Key == "os.Args" {
+					leaks = append(leaks, "os.Args")
+				}
+				return true
+			})
+			r.Check(len(leaks) == 0, "C05.f", fn.Name, sprintf("write#%d", n), pos,
+				"the written content depends on the path parameter only through sys.ReadFile(path)",
+				"the content written to the output file mentions the path ("+strings.Join(leaks, ", ")+") outside sys.ReadFile: the bytes depend on how the file name was spelled on the command line / on the working directory, not only on the files: "+short(ir.String(f.Path, w.Args[1]), 200))
+		}
+	}
+	if n == 0 {
+		r.Undecided("C05.f", "-", "write-sites", "fc", "no sys.WriteFile call found in fc (anchor moved?)")
+	}
 }
 
 // console printers: the only consumers allowed for a value derived from recover()
